@@ -57,8 +57,8 @@ theorem valTyS_flat {S E : List String} : ∀ {t : Ty}, valTyS S E t = true → 
     simp only [valTyS, Bool.and_eq_true] at h
     simp only [flatTy, Bool.and_eq_true]; exact ⟨valTysS_flat h.1, valTyS_flat h.2⟩
   | .vec e, h => by simp only [valTyS] at h; simp only [flatTy]; exact valTyS_flat h
-  | .unit, _ | .bool, _ | .string, _ | .int _ _, _ | .struct _, _ | .enum _, _ => rfl
-  | .float _, h | .dyn _, h | .app _ _, h | .param _, h
+  | .unit, _ | .bool, _ | .string, _ | .int _ _, _ | .struct _, _ | .enum _, _ | .dyn _, _ => rfl
+  | .float _, h | .app _ _, h | .param _, h
   | .tvar _, h => by simp [valTyS, scalarTy] at h
 theorem valTysS_flat {S E : List String} : ∀ {ts : List Ty}, valTysS S E ts = true → flatTys ts = true
   | [], _ => rfl
